@@ -95,6 +95,38 @@ def samples_of(scripts):
     return out
 
 
+def drift_check(tlc_scripts, p, workdir, limit=3000):
+    """impl -> L1: TLC re-executes the emitted scripts on World_L1 and compares handles, results,
+    aliveness, joins and masks with what the real code recorded (informational, never an alarm)"""
+    import json
+    orig = G.dedupe_prefixes(tlc_scripts)
+    if len(orig) > limit:       # an even sample over the whole list (short and long scripts)
+        step = len(orig) / float(limit)
+        orig = [orig[int(i * step)] for i in range(limit)]
+    hs = G.from_tlc(orig, p["S"], 900000000, variants=1, kinds=["vec", "dense", "hash", "btree"])
+    os.makedirs(workdir, exist_ok=True)
+    sp = os.path.join(workdir, "drift_scripts.ndjson")
+    hp = os.path.join(workdir, "drift_harness.ndjson")
+    tp = os.path.join(workdir, "drift_trace.ndjson")
+    with open(sp, "w") as f:
+        for o, h in zip(orig, hs):
+            f.write(json.dumps({"tid": h["tid"], "ops": o}) + "\n")
+    with open(hp, "w") as f:
+        for h in hs:
+            f.write(json.dumps(h) + "\n")
+    r = C.sh([C.BIN, "world", hp, tp], timeout=600)
+    if r.returncode != 0:
+        return {"error": "harness exit %d" % r.returncode}
+    cfg = os.path.join(workdir, "drift.cfg")
+    C.write_cfg(cfg, "SPECIFICATION DSpec\nCONSTANTS\n  MaxIdx = %d\n  S = %d\n  FixKill = TRUE\nINVARIANT Verdict\nCHECK_DEADLOCK FALSE\n"
+                % (p["MaxIdx"], p["S"]))
+    t = C.run_tlc("World_Drift.tla", cfg, workers=1, timeout=600, env={"SCRIPTS": sp, "TRACE": tp}, deque=True, xmx="3g")
+    d = C.parse_printed(t.stdout, "DRIFT")
+    if not d:
+        return {"error": t.stdout[-300:]}
+    return d[-1]
+
+
 def run_suite(name, tier, seed):
     kind, params = SUITES[tier][name]
     key = C.suite_key("world-" + name, params, seed, tier)
@@ -121,6 +153,11 @@ def run_suite(name, tier, seed):
                                    max_live=params.get("max_live", 14))
     r = C.exec_and_validate("world", scripts, workdir, MODULE, CFG)
     res.update(n_scripts=r["n_scripts"], n_events=r["n_events"], wall_s=r["wall_s"])
+    if kind == "mc":
+        try:
+            res["drift"] = drift_check(tlc_scripts, p, workdir)
+        except C.ToolError as e:
+            res["drift"] = {"error": str(e)[-300:]}
     res["viol"] = pack_viol(r["viol"], scripts)
     res["samples"] = samples_of(scripts)
     C.sh(["rm", "-rf", workdir])
